@@ -1,8 +1,8 @@
 (* Correspondence cases for C12: crypto/nonce.go (respond) and the nonce
    retention maps of kernel/cosi.go. *)
 From Coq Require Import List ZArith NArith Bool.
-Require Import Mixin.Base.Res Mixin.Gen.Consts Mixin.Model.Group Mixin.Model.Nonce.
-Require Export Mixin.Model.Limbs.
+Require Import Mixin.Base.Res Mixin.Gen.Consts Mixin.Model.Group.
+Require Export Mixin.Model.Nonce Mixin.Model.Limbs.
 Import ListNotations.
 Open Scope Z_scope.
 
